@@ -187,7 +187,7 @@ def run_part(ctx):
     hs = harnesses(ctx.tier)
     ctx.sharded(shard, nshards=len(hs), deadline=ctx.sub_deadline(0.5))
     ex = ctx.total.counters.get("executions", 0) - before
-    ctx.cov["e3_threads"] = {"schedules_explored": ex, "schedule_points": ctx.total.counters.get("schedule_points", 0), "PB": "1" if ctx.tier == "quick" else "1 for every harness, 2 for the DEEP list", "harnesses": len(hs)}
+    ctx.cov["e3_threads"] = {"schedules_explored": ex, "coarse_executions": ctx.total.counters.get("coarse_executions", 0), "schedule_points": ctx.total.counters.get("schedule_points", 0), "PB": "1" if ctx.tier == "quick" else "1 for every harness, 2 for the DEEP list", "harnesses": len(hs)}
     ctx.assumptions = list(ctx.assumptions) + [
         "E3 part: outer and two inners each emit serially from their own controlled thread; preemption at sync operations and line "
         "boundaries of _switchlatest.py; emissions in flight across the switch are not judged (only calls that started after the hand-over returned)"
